@@ -96,7 +96,7 @@ theorem mem_of_tail' {l : List Nat} {a : Nat} (h : a ∈ l.tail) : a ∈ l := Li
 
 set_option hygiene false in
 macro "bk_post" : tactic => `(tactic| (
-  all_goals (constructor <;> first | assumption | (simp only [upd, upd2, lockS, unlockS, newHelper, relocate, cont_extMode] at * <;> grind [upd, upd2, TOk, TPc.extMode, K.isExt, cont_extMode, cont_ne_enq, BPc.bar, BPc.locked, BPc.past, LocOk, Loc.queued, Loc.invoked, → locked_bar, → past_bar, nodup_tail'', head_notin_tail, → mem_of_head?', → mem_of_tail', cntU_other, cntU_same, cntU_false, cntU_notin, → mem_of_head?]))))
+  all_goals (constructor <;> first | assumption | (simp only [upd, upd2, lockS, unlockS, newHelper, relocate, nestOn, csOn, nestOff, cont_extMode] at * <;> grind [upd, upd2, TOk, TPc.extMode, K.isExt, cont_extMode, cont_ne_enq, BPc.bar, BPc.locked, BPc.past, LocOk, Loc.queued, Loc.invoked, → locked_bar, → past_bar, nodup_tail'', head_notin_tail, → mem_of_head?', → mem_of_tail', cntU_other, cntU_same, cntU_false, cntU_notin, → mem_of_head?]))))
 
 set_option hygiene false in
 macro "bk_pre" : tactic => `(tactic| (
@@ -423,7 +423,7 @@ theorem binvk_bEnq (c : Cfg) {s s' : BState} (hA : InvA c s.base) (hD : InvD c s
       · by_cases hb1 : b1 = b
         · subst hb1; simp only [↓reduceIte]; intro hx; exact k4 (mem_of_tail' hx)
         · simp [hb1, k4]
-  all_goals (first | assumption | (simp only [upd, upd2, lockS, unlockS, newHelper, relocate, cont_extMode] at * <;> grind [upd, upd2, TOk, TPc.extMode, K.isExt, cont_extMode, cont_ne_enq, BPc.bar, BPc.locked, BPc.past, LocOk, Loc.queued, Loc.invoked, → locked_bar, → past_bar, nodup_tail'', head_notin_tail, → mem_of_head?', → mem_of_tail', cntU_other, cntU_same, cntU_false, cntU_notin, → mem_of_head?]))
+  all_goals (first | assumption | (simp only [upd, upd2, lockS, unlockS, newHelper, relocate, nestOn, csOn, nestOff, cont_extMode] at * <;> grind [upd, upd2, TOk, TPc.extMode, K.isExt, cont_extMode, cont_ne_enq, BPc.bar, BPc.locked, BPc.past, LocOk, Loc.queued, Loc.invoked, → locked_bar, → past_bar, nodup_tail'', head_notin_tail, → mem_of_head?', → mem_of_tail', cntU_other, cntU_same, cntU_false, cntU_notin, → mem_of_head?]))
 
 theorem binvk_bUnlock (c : Cfg) {s s' : BState} (hA : InvA c s.base) (hD : InvD c s.base) (hH : BInvH c s) (hP : BInvP c s) (h : BInvK c s) (t : _)
     (st : bstep c s (.bUnlock t) = some s') : BInvK c s' := by
